@@ -6,9 +6,9 @@ META = dict(
     explanation="Quoting functions only: Executor.QuoteEntry (sh/bash escaper and fish escaper) and escapeSingleQuote are applied to every entry "
                 "inside the bound over an alphabet of shell metacharacters; a model of POSIX (and fish single-quote) word lexing must read the result "
                 "back as exactly one word equal to the entry with no active metacharacter.",
-    functions=["util.NewExecutor", "util.(*Executor).QuoteEntry", "fzf.escapeSingleQuote", "fzf.replacePlaceholder (whole function, concrete templates)", "fzf.parsePlaceholder"],
-    outside=["templates other than the fixed list ({}, {+}, {q}, {n}, {+n}, \\{}, {1}, each optionally after {r})", "{f} temp files", "tmux/proxy script assembly", "the real shells (used only in the seeded demonstrations)"],
-    models=["regexp methods on concrete strings (the template) are run natively with Go's regexp","strings.NewReplacer/(*Replacer).Replace -> zzv.M_Replacer_Replace (left-to-right, argument-order priority; validated natively)", "os.Getenv -> job configuration",
+    functions=["util.NewExecutor", "util.(*Executor).QuoteEntry", "fzf.escapeSingleQuote", "fzf.replacePlaceholder (whole function, concrete templates)", "fzf.parsePlaceholder", "fzf.runTmux (argument re-quoting; runProxy modelled in the engine, real natively with a fake tmux on PATH)"],
+    outside=["templates other than the fixed list ({}, {+}, {q}, {n}, {+n}, \\{}, {1}, each optionally after {r})", "{f} temp files", "the export lines and script assembly inside runProxy", "the real shells (used only in the seeded demonstrations)"],
+    models=["regexp methods on concrete strings (the template) are run natively with Go's regexp","strings.NewReplacer/(*Replacer).Replace -> zzv.M_Replacer_Replace (left-to-right, argument-order priority; validated natively)", "os.Getenv -> job configuration", "runProxy -> capture of the command line (engine only)", "os.Getwd -> \"/\"",
             "shell lexing reference zzShWords (trusted; written from POSIX sh quoting rules and fish's two-escape rule)"],
     assumptions=["entries without NUL over {' \\\\ a space $ ` \" newline ; *}"],
 )
@@ -25,4 +25,6 @@ def suites(tier):
     s1 = dict(UTIL, name="util", jobs=jobs)
     jobs2 = [dict(id="esq", func="zzH_C12_esq", cfg=dict(nmax=4 if q else 6)),
              dict(id="expand", func="zzH_C12_expand", cfg=dict(nmax=2 if q else 3), cfgs={"env:SHELL": "/bin/sh"})]
+    for shell, ws in (("/bin/sh", ""), ("/usr/bin/fish", ""), ("/bin/sh", "/opt/fish -c")):
+        jobs2.append(dict(id="tmux:%s:%s" % (shell, ws or "-"), func="zzH_C12_tmux", cfg=dict(nmax=3 if q else 5), cfgs={"env:SHELL": shell, "withshell": ws}))
     return [s1, src_suite("src", jobs2)]
